@@ -60,6 +60,11 @@ SteffBad(o) ==
           THEN {"steffensen_returns_the_fixed_point"} ELSE {})
   \cup (IF o.regular /\ r.ret = "err" THEN {"regular_problem_returns_ok"} ELSE {})
 
+NearARoot(ws, x, bound) == \E k \in 1..Len(ws) : FLe(CAbs(CSub(x, ws[k])), bound)
+RootAllowance(p, x) ==
+  LET ax == <<CAbs(x), F0>>
+      mag == PEval([k \in 1..Len(p) |-> <<CAbs(p[k]), F0>>], ax)[1]
+  IN FDiv(FMul(FMul(FOfInt(256), FEps), mag), FMax(CAbs(PEval(PDeriv(p), x)), FScale(1, -200)))
 PolyIterBad(o) ==
   LET r == o.obs x == r.xc IN
   (IF r.ret = "ok" /\ ~CFinite(x) THEN {"result_is_finite_not_nan"} ELSE {})
@@ -69,6 +74,13 @@ PolyIterBad(o) ==
   \cup (IF r.ret = "ok" /\ CFinite(x) /\ (o.method = "muller_polynomial" \/ ~o.regular)
            /\ ~FLe(CAbs(PEval(o.coefs, x)), FMul(FMul(KRes, o.tol), FAdd(F1, CAbs(PEval(PDeriv(o.coefs), x)))))
           THEN {"ok_result_is_a_root_of_the_polynomial"} ELSE {})
+  \* ... and for simple, separated roots "a root" is a point within the tolerance of one of them (the tolerance is on the
+  \* iterate: the routine stops on the length of its step), not merely a point where the polynomial is small - on a
+  \* polynomial that is flat at its roots (|p'| of 1e-3) the two differ by a factor of a thousand.  The allowance is the
+  \* distance by which rounding of the coefficients moves the root: eps * sum |c_k| |x|^k / |p'(x)|
+  \cup (IF r.ret = "ok" /\ CFinite(x) /\ o.method = "muller_polynomial" /\ o.regular
+           /\ ~NearARoot(o.roots, x, FAdd(FMul(KSys, o.tol), RootAllowance(o.coefs, x)))
+          THEN {"muller_result_within_tolerance_of_a_root"} ELSE {})
   \cup (IF o.regular /\ r.ret = "err" THEN {"regular_problem_returns_ok"} ELSE {})
 
 Bad(o) ==
